@@ -412,6 +412,8 @@ struct FRun {
     ctid: u8,
     ts0: u32, // timestamp (0.1 ms) of the first message of the run
     dts: u32, // increment per message
+    #[serde(default)]
+    jit: u32, // reception delay (0.1 ms): reception time = BASE + (timestamp + jit) * 100 us
 }
 #[derive(Clone, Debug, Serialize, Deserialize)]
 enum SOp {
@@ -422,9 +424,17 @@ enum SOp {
     Pages { k: usize, start: u64, maxr: u64, fs: Vec<CF> },
     LookIdx { k: usize, idx: u64 },
     LookTime { k: usize, t_ms: u64 },
+    /// index= for every index 0..=n
+    LookIdxAll { k: usize, n: u64 },
+    /// time_ms= at t0_ms + j * step_ms, j < cnt
+    LookTimeAll { k: usize, t0_ms: u64, step_ms: u64, cnt: u64 },
 }
 #[derive(Clone, Debug, Serialize, Deserialize)]
 struct SessCase {
+    #[serde(default)]
+    collect: u8, // open option "collect": 0 absent, 1 true, 2 "all"
+    #[serde(default)]
+    plugin: bool, // open with a plugin that does not touch these messages (FileTransfer)
     sorted: bool,
     preload: bool,
     file: Vec<FRun>,
@@ -437,7 +447,7 @@ fn expand_file(file: &[FRun]) -> Vec<DltMessage> {
         for j in 0..r.cnt {
             let i = v.len() as u32;
             let ts = r.ts0 + j * r.dts;
-            v.push(mk_msg(i, r.ecu, r.apid, r.ctid, BASE_US + ts as u64 * 100, ts, i as u8, i));
+            v.push(mk_msg(i, r.ecu, r.apid, r.ctid, BASE_US + (ts + r.jit) as u64 * 100, ts, i as u8, i));
         }
     }
     v
@@ -740,6 +750,8 @@ struct IdRec {
 }
 
 struct SessOut {
+    /// lookups per branch: index x (file order | time sorted) x (filtered | unfiltered), time x (filtered | unfiltered)
+    counts: [u64; 6],
     obs: O,
     verdict: Verdict,
     file_coq: String,
@@ -789,9 +801,18 @@ fn run_session(srv_port: u16, c: &SessCase, dir: &std::path::Path, uniq: u64) ->
     let mut viol: Option<Verdict> = None;
     let mut chks: Vec<Chk> = vec![];
 
-    let open = cl.cmd(&format!("open {{\"sort\":{},\"files\":[{}]}}", c.sorted, json!(path.to_str().unwrap())), &["ok: open", "err: open"]);
+    let mut open_js = json!({"sort": c.sorted, "files": [path.to_str().unwrap()]});
+    match c.collect {
+        1 => open_js["collect"] = json!(true),
+        2 => open_js["collect"] = json!("all"),
+        _ => {}
+    }
+    if c.plugin {
+        open_js["plugins"] = json!([{"name": "FileTransfer", "allowSave": false}]);
+    }
+    let open = cl.cmd(&format!("open {}", open_js), &["ok: open", "err: open"]);
     if !open.as_deref().unwrap_or("").starts_with("ok: open") {
-        return SessOut { obs: O::T(vec![O::L(97)]), verdict: sess_fail("open", format!("{:?} {:?}", open, cl.dead)), file_coq: "[]".into(), tags };
+        return SessOut { counts: [0; 6], obs: O::T(vec![O::L(97)]), verdict: sess_fail("open", format!("{:?} {:?}", open, cl.dead)), file_coq: "[]".into(), tags };
     }
     if c.preload {
         finished = cl.wait_finished(n);
@@ -942,6 +963,48 @@ fn run_session(srv_port: u16, c: &SessCase, dir: &std::path::Path, uniq: u64) ->
                         }
                     }
                 }
+            }
+            SOp::LookIdxAll { k, n: upto } => {
+                if !finished {
+                    settle!();
+                }
+                let id = cur_id(&streams, *k);
+                let mut os = vec![];
+                for idx in 0..=*upto {
+                    let r = cl.cmd(&format!("stream_binary_search {} index={}", id, idx), &["ok: stream_binary_search", "err: stream_binary_search"]).unwrap_or_default();
+                    match parse_id_after(&r, "{\"filtered_msg_index\":") {
+                        Some(p) if r.starts_with("ok:") => {
+                            os.push(O::T(vec![O::L(0), O::n(p)]));
+                            chks.push(Chk::LookIdx { k: *k, idx, pos: Some(p as u64) });
+                        }
+                        _ => {
+                            os.push(O::T(vec![O::L(1)]));
+                            if r.contains("all_msgs#=") {
+                                chks.push(Chk::LookIdx { k: *k, idx, pos: None });
+                            }
+                        }
+                    }
+                }
+                op_obs.push(O::T(os));
+            }
+            SOp::LookTimeAll { k, t0_ms, step_ms, cnt } => {
+                if !finished {
+                    settle!();
+                }
+                let id = cur_id(&streams, *k);
+                let mut os = vec![];
+                for j in 0..*cnt {
+                    let t_ms = t0_ms + j * step_ms;
+                    let r = cl.cmd(&format!("stream_binary_search {} time_ms={}", id, t_ms), &["ok: stream_binary_search", "err: stream_binary_search"]).unwrap_or_default();
+                    match parse_id_after(&r, "{\"filtered_msg_index\":") {
+                        Some(p) if r.starts_with("ok:") => {
+                            os.push(O::T(vec![O::L(0), O::n(p)]));
+                            chks.push(Chk::LookTime { k: *k, t_ms, pos: p as u64 });
+                        }
+                        _ => os.push(O::T(vec![O::L(1)])),
+                    }
+                }
+                op_obs.push(O::T(os));
             }
             SOp::LookTime { k, t_ms } => {
                 if !finished {
@@ -1200,7 +1263,23 @@ fn run_session(srv_port: u16, c: &SessCase, dir: &std::path::Path, uniq: u64) ->
     }
     // the file as the model sees it: all_msgs order (ecu, apid, ctid, time key, index), run-length encoded
     let file_coq = file_runs_coq(&probe, &key_of, &kind);
-    SessOut { obs: O::T(vec![O::T(op_obs), O::T(totals)]), verdict: viol.unwrap_or(Verdict::Ok), file_coq, tags }
+    let mut counts = [0u64; 6];
+    for ch in &chks {
+        match ch {
+            Chk::LookIdx { k, .. } => counts[(c.sorted as usize) * 2 + (!cf_active(&streams[*k].fs)) as usize] += 1,
+            Chk::LookTime { k, .. } => counts[4 + (!cf_active(&streams[*k].fs)) as usize] += 1,
+            _ => {}
+        }
+    }
+    // does the time sort reorder this file (msg.index not ascending along all_msgs)?
+    if probe.windows(2).any(|w| w[0].index > w[1].index) {
+        tags.push("sess_index_not_monotone".into());
+    }
+    if c.plugin {
+        tags.push("open_plugin".into());
+    }
+    tags.push(format!("open_collect{}", c.collect));
+    SessOut { counts, obs: O::T(vec![O::T(op_obs), O::T(totals)]), verdict: viol.unwrap_or(Verdict::Ok), file_coq, tags }
 }
 
 /// short rendering of a possibly very long list of indices, with the first position where it differs from `other`
@@ -1304,6 +1383,8 @@ fn sop_coq(o: &SOp) -> String {
         SOp::Pages { k, start, maxr, fs } => format!("SPages {} {} {} {}", k, start, maxr, cfs_coq(fs)),
         SOp::LookIdx { k, idx } => format!("SLookIdx {} {}", k, idx),
         SOp::LookTime { k, t_ms } => format!("SLookTime {} {}", k, t_ms * 1000),
+        SOp::LookIdxAll { k, n } => format!("SLookIdxAll {} {}", k, n),
+        SOp::LookTimeAll { k, t0_ms, step_ms, cnt } => format!("SLookTimeAll {} {} {} {}", k, t0_ms * 1000, step_ms * 1000, cnt),
     }
 }
 
@@ -1322,6 +1403,8 @@ fn sess_record(sink: &mut Sink, c: SessCase, out: SessOut) {
                 SOp::Pages { .. } => "op_pages",
                 SOp::LookIdx { .. } => "op_lookup_index",
                 SOp::LookTime { .. } => "op_lookup_time",
+                SOp::LookIdxAll { .. } => "op_lookup_index_all",
+                SOp::LookTimeAll { .. } => "op_lookup_time_all",
             }
             .to_string(),
         );
@@ -1366,7 +1449,7 @@ fn gen_file(rng: &mut Rng, big: bool) -> Vec<FRun> {
         for _ in 0..nruns {
             let cnt = 3000 + rng.below(6000) as u32;
             let dts = *rng.pick(&[0u32, 0, 1, 2]);
-            v.push(FRun { cnt, ecu: 1, apid: rng.below(3) as u8, ctid: rng.below(2) as u8, ts0: ts, dts });
+            v.push(FRun { cnt, ecu: 1, apid: rng.below(3) as u8, ctid: rng.below(2) as u8, ts0: ts, dts, jit: 0 });
             ts += cnt * dts + rng.below(3) as u32;
         }
     } else {
@@ -1376,14 +1459,95 @@ fn gen_file(rng: &mut Rng, big: bool) -> Vec<FRun> {
         for _ in 0..n {
             ts += *rng.pick(&[0u32, 0, 0, 10, 10, 20]);
             let t = if unordered && rng.chance(1, 3) { rng.below(40) as u32 } else { ts };
-            v.push(FRun { cnt: 1, ecu: if two_ecus { 1 + rng.below(2) as u8 } else { 1 }, apid: rng.below(3) as u8, ctid: rng.below(2) as u8, ts0: t, dts: 0 });
+            v.push(FRun { cnt: 1, ecu: if two_ecus { 1 + rng.below(2) as u8 } else { 1 }, apid: rng.below(3) as u8, ctid: rng.below(2) as u8, ts0: t, dts: 0, jit: 0 });
         }
     }
     v
 }
 
+/// small files whose calculated-time order differs from the index (file) order: timestamps swapped within pairs,
+/// rotated within triples, shuffled in small windows, delayed receptions (jitter) of one or two ECUs with different
+/// offsets, plus ties
+fn gen_file_reordered(rng: &mut Rng) -> Vec<FRun> {
+    let n = 4 + rng.below(22) as usize;
+    let step = *rng.pick(&[10u32, 10, 20, 5]);
+    let t0 = 40 + rng.below(30) as u32;
+    let mut ts: Vec<u32> = (0..n as u32).map(|i| t0 + step * i).collect();
+    let mut jit: Vec<u32> = vec![0; n];
+    let two_ecus = rng.chance(1, 3);
+    match rng.below(5) {
+        0 => {
+            for i in (0..n - 1).step_by(2) {
+                ts.swap(i, i + 1);
+            }
+        }
+        1 => {
+            for i in (0..n.saturating_sub(2)).step_by(3) {
+                ts[i..i + 3].rotate_left(1 + rng.below(2) as usize);
+            }
+        }
+        2 => {
+            let mut i = 0;
+            while i < n {
+                let w = std::cmp::min(2 + rng.below(3) as usize, n - i);
+                for j in (1..w).rev() {
+                    let k = rng.below(j as u64 + 1) as usize;
+                    ts.swap(i + j, i + k);
+                }
+                i += w;
+            }
+        }
+        3 => {
+            // receptions in file order, some messages were delayed: timestamp = reception - delay
+            for i in 0..n {
+                jit[i] = *rng.pick(&[0u32, 0, 0, 7, 13, 25, 38]);
+                ts[i] = t0 + step * i as u32 + 40 - jit[i];
+            }
+        }
+        _ => {
+            for i in 0..n {
+                if rng.chance(1, 3) && i > 0 {
+                    ts[i] = ts[i - 1]; // ties
+                } else if rng.chance(1, 4) {
+                    ts[i] = t0 + rng.below((step as u64) * n as u64) as u32;
+                }
+            }
+        }
+    }
+    (0..n)
+        .map(|i| {
+            let ecu = if two_ecus { 1 + (i % 2) as u8 } else { 1 };
+            // the second ECU booted later: smaller timestamps at the same reception times
+            let off = if ecu == 2 { 30 } else { 0 };
+            FRun { cnt: 1, ecu, apid: rng.below(3) as u8, ctid: rng.below(2) as u8, ts0: ts[i] - off, dts: 0, jit: jit[i] + off }
+        })
+        .collect()
+}
+
+/// every lookup kind at every position: index= for every index of the file and two beyond, time_ms= from before the
+/// first to after the last message, on an unfiltered stream, a stream with a positive and one with a negative filter
+fn gen_lookup_sess(rng: &mut Rng, sorted: bool, collect: u8, plugin: bool) -> SessCase {
+    let file = if sorted || rng.chance(1, 2) { gen_file_reordered(rng) } else { gen_file(rng, false) };
+    let n: u64 = file.iter().map(|r| r.cnt as u64).sum();
+    let max_t: u64 = file.iter().map(|r| (r.ts0 + r.jit) as u64).max().unwrap_or(0);
+    let mut ops = vec![
+        SOp::New { settle: true, is_stream: true, binary: true, fs: vec![], start: 0, end: 3 },
+        SOp::New { settle: true, is_stream: true, binary: true, fs: vec![(0, 1, rng.below(3) as u8)], start: 0, end: 3 },
+        SOp::New { settle: true, is_stream: true, binary: rng.chance(1, 2), fs: vec![(1, 1, rng.below(3) as u8), (*rng.pick(&[1u8, 3]), 2, rng.below(2) as u8)], start: 1, end: 2 },
+    ];
+    let span_ms = max_t / 10 + 4;
+    let step_ms = (span_ms + 47) / 48;
+    for k in 0..3usize {
+        ops.push(SOp::LookIdxAll { k, n: n + 1 });
+    }
+    for k in 0..3usize {
+        ops.push(SOp::LookTimeAll { k, t0_ms: BASE_US / 1000 - 1, step_ms, cnt: span_ms / step_ms + 2 });
+    }
+    SessCase { collect, plugin, sorted, preload: rng.chance(2, 3), file, ops }
+}
+
 fn gen_sess(rng: &mut Rng, racing: bool, sorted: bool) -> SessCase {
-    let file = gen_file(rng, racing);
+    let file = if sorted && !racing { gen_file_reordered(rng) } else { gen_file(rng, racing) };
     let n: u64 = file.iter().map(|r| r.cnt as u64).sum();
     let max_ts: u64 = file.iter().map(|r| (r.ts0 + r.cnt * r.dts) as u64).max().unwrap_or(0);
     let mut ops = vec![];
@@ -1413,6 +1577,7 @@ fn gen_sess(rng: &mut Rng, racing: bool, sorted: bool) -> SessCase {
             }
             4 => ops.push(SOp::Search { k: rng.below(kinds.len() as u64) as usize, start: if racing { n.saturating_sub(rng.below(400)) } else { rng.below(n + 2) }, maxr: *rng.pick(&[0u64, 1, 1, 2, 3, 100]), fs: gen_filters(rng) }),
             5 | 6 => ops.push(SOp::Pages { k: rng.below(kinds.len() as u64) as usize, start: if racing { n.saturating_sub(1 + rng.below(400)) } else { rng.below(n / 2 + 1) }, maxr: if racing { 40 + rng.below(100) } else { *rng.pick(&[1u64, 1, 2, 3, 5]) }, fs: gen_filters(rng) }),
+            7 if !racing && rng.chance(1, 2) => ops.push(SOp::LookIdxAll { k: rng.below(kinds.len() as u64) as usize, n: n + 1 }),
             7 => ops.push(SOp::LookIdx { k: rng.below(kinds.len() as u64) as usize, idx: rng.below(n + 2) }),
             8 => ops.push(SOp::LookTime { k: rng.below(kinds.len() as u64) as usize, t_ms: BASE_US / 1000 + rng.below(max_ts / 10 + 3) }),
             _ => {
@@ -1424,7 +1589,7 @@ fn gen_sess(rng: &mut Rng, racing: bool, sorted: bool) -> SessCase {
             }
         }
     }
-    SessCase { sorted, preload: !racing, file, ops }
+    SessCase { collect: rng.below(3) as u8, plugin: rng.chance(1, 4), sorted, preload: !racing, file, ops }
 }
 
 /// window sizes over several orders of magnitude: log-uniform, neighbours of powers of ten and of two,
@@ -1463,7 +1628,7 @@ fn gen_large_sess(rng: &mut Rng, n_target: u64) -> SessCase {
         let cnt = cnt.max(1).min(left);
         left -= cnt;
         let dts = *rng.pick(&[0u32, 0, 1, 1, 2]);
-        file.push(FRun { cnt: cnt as u32, ecu: 1, apid: (j % 3) as u8, ctid: rng.below(2) as u8, ts0: ts, dts });
+        file.push(FRun { cnt: cnt as u32, ecu: 1, apid: (j % 3) as u8, ctid: rng.below(2) as u8, ts0: ts, dts, jit: 0 });
         ts += cnt as u32 * dts + rng.below(3) as u32;
         if left == 0 {
             break;
@@ -1518,7 +1683,7 @@ fn gen_large_sess(rng: &mut Rng, n_target: u64) -> SessCase {
             _ => ops.push(SOp::LookTime { k: rng.below(kinds.len() as u64) as usize, t_ms: BASE_US / 1000 + rng.below(max_ts / 10 + 3) }),
         }
     }
-    SessCase { sorted: false, preload: false, file, ops }
+    SessCase { collect: 0, plugin: false, sorted: false, preload: false, file, ops }
 }
 
 fn run_sessions(cases: Vec<SessCase>) -> Vec<(SessCase, SessOut)> {
@@ -1543,7 +1708,7 @@ fn run_sessions(cases: Vec<SessCase>) -> Vec<(SessCase, SessOut)> {
             })
             .collect();
         for (j, h) in hs.into_iter().enumerate() {
-            outs[chunk_no * par + j] = Some(h.join().unwrap_or_else(|_| SessOut { obs: O::T(vec![O::L(96)]), verdict: sess_fail("harness_panic", "session thread panicked".into()), file_coq: "[]".into(), tags: vec![] }));
+            outs[chunk_no * par + j] = Some(h.join().unwrap_or_else(|_| SessOut { counts: [0; 6], obs: O::T(vec![O::L(96)]), verdict: sess_fail("harness_panic", "session thread panicked".into()), file_coq: "[]".into(), tags: vec![] }));
         }
     }
     drop(srv);
@@ -1575,13 +1740,13 @@ fn corpus_lib() -> Vec<LibCase> {
 }
 
 fn corpus_sess() -> Vec<SessCase> {
-    let f12: Vec<FRun> = (0..12u32).map(|i| FRun { cnt: 1, ecu: 1, apid: (i % 3) as u8, ctid: 0, ts0: 10 * (i / 3), dts: 0 }).collect();
+    let f12: Vec<FRun> = (0..12u32).map(|i| FRun { cnt: 1, ecu: 1, apid: (i % 3) as u8, ctid: 0, ts0: 10 * (i / 3), dts: 0, jit: 0 }).collect();
     let app12 = vec![(0u8, 1u8, 1u8), (0, 1, 2)];
     let t = |ms: u64| BASE_US / 1000 + ms;
     vec![
         // the witnesses of the repaired defects: search in an unfiltered stream, paging, lookups on equal times
         SessCase {
-            sorted: false,
+            collect: 0, plugin: false, sorted: false,
             preload: true,
             file: f12.clone(),
             ops: vec![
@@ -1605,7 +1770,7 @@ fn corpus_sess() -> Vec<SessCase> {
         },
         // the same on a file sorted by time
         SessCase {
-            sorted: true,
+            collect: 0, plugin: false, sorted: true,
             preload: true,
             file: f12.clone(),
             ops: vec![
@@ -1618,7 +1783,7 @@ fn corpus_sess() -> Vec<SessCase> {
         },
         // windows: change, overlap, empty, beyond the end, text mode, query with end marker
         SessCase {
-            sorted: false,
+            collect: 0, plugin: false, sorted: false,
             preload: true,
             file: f12.clone(),
             ops: vec![
@@ -1633,11 +1798,27 @@ fn corpus_sess() -> Vec<SessCase> {
                 SOp::Window { settle: true, k: 0, start: 0, end: 2 },
             ],
         },
+        // sort:true on a file whose time order is not the index order (timestamps swapped within pairs): index
+        // lookups for every index, also of messages that are not in the filtered stream
+        SessCase {
+            collect: 0,
+            plugin: false,
+            sorted: true,
+            preload: true,
+            file: (0..12u32).map(|i| FRun { cnt: 1, ecu: 1, apid: (i % 3) as u8, ctid: 0, ts0: 50 + 10 * (i ^ 1), dts: 0, jit: 0 }).collect(),
+            ops: vec![
+                SOp::New { settle: true, is_stream: true, binary: true, fs: vec![], start: 0, end: 100 },
+                SOp::New { settle: true, is_stream: true, binary: true, fs: vec![(0, 1, 0)], start: 0, end: 100 },
+                SOp::LookIdxAll { k: 0, n: 13 },
+                SOp::LookIdxAll { k: 1, n: 13 },
+                SOp::LookTimeAll { k: 1, t0_ms: t(0) - 1, step_ms: 1, cnt: 20 },
+            ],
+        },
         // a query sent right after open on a file that takes a while to parse (repaired: it used to end empty)
         SessCase {
-            sorted: false,
+            collect: 0, plugin: false, sorted: false,
             preload: false,
-            file: vec![FRun { cnt: 30000, ecu: 1, apid: 0, ctid: 0, ts0: 0, dts: 1 }, FRun { cnt: 30000, ecu: 1, apid: 1, ctid: 0, ts0: 30000, dts: 0 }, FRun { cnt: 30000, ecu: 1, apid: 2, ctid: 1, ts0: 30000, dts: 2 }],
+            file: vec![FRun { cnt: 30000, ecu: 1, apid: 0, ctid: 0, ts0: 0, dts: 1, jit: 0 }, FRun { cnt: 30000, ecu: 1, apid: 1, ctid: 0, ts0: 30000, dts: 0, jit: 0 }, FRun { cnt: 30000, ecu: 1, apid: 2, ctid: 1, ts0: 30000, dts: 2, jit: 0 }],
             ops: vec![
                 SOp::New { settle: false, is_stream: false, binary: true, fs: vec![(0, 1, 1)], start: 29990, end: 30010 },
                 SOp::New { settle: false, is_stream: true, binary: true, fs: vec![(1, 1, 0)], start: 59990, end: 60010 },
@@ -1677,8 +1858,13 @@ fn main() {
     let nsess = if a.count.is_some() { 0 } else if quick { 18 } else { 300 };
     for i in 0..nsess {
         let racing = i % 6 == 5;
-        let sorted = i % 5 == 3;
+        let sorted = i % 3 == 1 && !racing;
         sess.push(gen_sess(&mut srng, racing, sorted));
+    }
+    // every lookup kind at every position, crossed with the open options
+    let nlook = if a.count.is_some() { 0 } else if quick { 6 } else { 60 };
+    for i in 0..nlook {
+        sess.push(gen_lookup_sess(&mut srng, i % 2 == 0, (i % 3) as u8, i % 4 == 1));
     }
     // large sessions: windows over several orders of magnitude
     let nlarge = if a.count.is_some() { 0 } else if quick { 3 } else { 16 };
@@ -1691,6 +1877,17 @@ fn main() {
         sess.push(gen_large_sess(&mut srng, n_target));
     }
     let done = run_sessions(sess);
+    let mut counts = [0u64; 6];
+    for (_, o) in &done {
+        for j in 0..6 {
+            counts[j] += o.counts[j];
+        }
+    }
+    sink.extra_stats.insert(
+        "lookups_per_branch".into(),
+        json!({"index_file_order_filtered": counts[0], "index_file_order_unfiltered": counts[1], "index_time_sorted_filtered": counts[2],
+               "index_time_sorted_unfiltered": counts[3], "time_filtered": counts[4], "time_unfiltered": counts[5]}),
+    );
     let (mut large, normal): (Vec<_>, Vec<_>) = done.into_iter().partition(|(c, _)| c.file.iter().map(|r| r.cnt as u64).sum::<u64>() >= 100_000);
     // library level
     for c in corpus_lib() {
